@@ -87,6 +87,17 @@ where
         self.r_prim = info.res_primal;
         self.r_dual = info.res_dual;
 
+        #[cfg(clarabel_verif)]
+        crate::verif::emit_simple(
+            "PostSolution",
+            &[info.status as i64, is_infeasible as i64, info.iterations as i64],
+            &[
+                crate::verif::f64_of(variables.τ),
+                crate::verif::f64_of(variables.κ),
+                crate::verif::f64_of(data.equilibration.c),
+            ],
+        );
+
         // unscale the variables to get a solution
         // to the internal problem as we solved it
         variables.unscale(data, is_infeasible);
